@@ -258,8 +258,7 @@ def nat_dump_stats(h):
             counters = {'resource-bytes': None, 'datapackage-bytes': None}
         elif ckind == 'no-hash':
             # sizes and row counts are recorded although no file hash is asked for (the size must not depend on the hashing pass)
-            counters = {'resource-hash': None}
-            hashpath = False
+            counters = {'resource-hash': None}       # (also together with add_filehash_to_path: no hash, so none in the path)
         d = tempfile.mkdtemp(prefix='c09_')
         try:
             opts = dict(format=fmt, add_filehash_to_path=hashpath, pretty_descriptor=pretty, counters=counters)
